@@ -1,6 +1,7 @@
 import Abmarl.Props.Examples
 import Abmarl.Spec.Pacman
 import Abmarl.Lemmas.Pacman
+import Abmarl.Lemmas.PacmanFloat
 /-!
 # `PacmanSim` / `PacmanSimSimple` (`abmarl/examples/sim/pacman.py`): what is proved
 
@@ -343,6 +344,127 @@ theorem pacman_simIface_reachable (cfg : PM.Cfg) (w0 : World) (n : Nat) (hcfg : 
     simp only [PM.toSimIface]
     split <;> simp_all
 
+/-! ## C03 after steps: the cell structure (`WInvFloat`) in every reachable state -/
+
+namespace PM
+
+/-- once a reset has returned the world satisfies `WInvFloat` -/
+def FloatS (s : St) : Prop := s.ex.rewards.isSome = true → WInvFloat s.ex.w = true
+
+theorem runOp_floatS {cfg : Cfg} {w0 : World} (hcfg : CfgOK w0) (hA0 : AmmoC w0) (hN0 : NoAmmoC w0)
+    (s : St) (op : Op) (hop : OpOK cfg w0 op) (hG : GoodV w0 s) (hF : FloatS s) : FloatS (runOp cfg s op).2 := by
+  have hT : ∀ t, FloatS (s.withTape t) := fun t => hF
+  cases op with
+  | reset order tape =>
+    simp only [runOp]
+    cases h : reset cfg order (s.withTape tape) with
+    | error e => exact hF
+    | ok s' =>
+      obtain ⟨_, hI, _, _⟩ := reset_goodV hcfg hA0 hN0 hop (s := s.withTape tape) hG h
+      exact fun _ => WInvFloat_of_WInv hI
+  | step acts tape =>
+    simp only [runOp]
+    intro hs
+    rw [step_rewards_isSome] at hs
+    exact step_float cfg (s.withTape tape) acts (hT tape hs)
+  | obs a tape =>
+    simp only [runOp]
+    cases h : getObs cfg (s.withTape tape) a with
+    | error e => exact hF
+    | ok r =>
+      obtain ⟨o, s'⟩ := r
+      unfold getObs at h
+      cases he : Ex.getObs cfg.toEx (s.withTape tape).ex a with
+      | error e => rw [he] at h; cases h
+      | ok r2 =>
+        obtain ⟨o2, e2⟩ := r2
+        rw [he] at h
+        simp only [Except.ok.injEq, Prod.mk.injEq] at h
+        obtain ⟨t', rfl⟩ := Ex.getObs_shape he
+        rw [← h.2]
+        exact hF
+  | rew a =>
+    simp only [runOp]
+    cases h : getReward cfg s a with
+    | error e => exact hF
+    | ok r =>
+      obtain ⟨x, s'⟩ := r
+      unfold getReward at h
+      cases he : Ex.getReward cfg.toEx s.ex a with
+      | error e => rw [he] at h; cases h
+      | ok r2 =>
+        obtain ⟨x2, e2⟩ := r2
+        rw [he] at h
+        simp only [Except.ok.injEq, Prod.mk.injEq] at h
+        obtain ⟨r0, hr0, _, rfl⟩ := Ex.getReward_shape he
+        rw [← h.2]
+        intro _
+        exact hF (by rw [hr0]; rfl)
+  | done a => exact hF
+  | allDone => exact hF
+
+theorem runOps_floatS {cfg : Cfg} {w0 : World} (hcfg : CfgOK w0) (hA0 : AmmoC w0) (hN0 : NoAmmoC w0) (ops : List Op) :
+    ∀ (s : St), (∀ op ∈ ops, OpOK cfg w0 op) → GoodV w0 s → FloatS s → FloatS (runOps cfg s ops).2 := by
+  induction ops with
+  | nil => intro s _ _ h; exact h
+  | cons op ops ih =>
+    intro s hops hG hF
+    have h1 := runOp_goodV hcfg hA0 hN0 s op (hops op List.mem_cons_self) hG
+    have h2 := runOp_floatS hcfg hA0 hN0 s op (hops op List.mem_cons_self) hG hF
+    simp only [runOps]
+    split
+    · exact h2
+    · exact ih _ (fun o ho => hops o (List.mem_cons_of_mem _ ho)) h1 h2
+
+end PM
+
+/-- **C03 for `PacmanSim` / `PacmanSimSimple`: the cell structure in EVERY reachable state.**  From the constructed world
+`w0`, after ANY history of resets (`PM.OpOK`), steps — ANY action dicts, steps that returned and steps that RAISED (the history
+goes on with the state the raising step left) —, observations, reward reads and done queries: once a reset has returned, the
+world satisfies `PM.WInvFloat` — the tables have their shape, no cell holds an id twice, whoever is stored in a cell is an agent
+of the simulation whose stored position is that cell (inside the grid), no two occupants of a cell have encodings that may not
+overlap, the vitals are legal and the overlap table is symmetric.  (`WInvFloat` is `WInv` without "stored ⇒ active" and
+"active ⇒ stored", the two clauses the class does NOT keep: `pacman_refused_teleport_witness`,
+`pacman_teleport_outside_grid_raises`.) -/
+theorem pacman_reachable_WInvFloat (cfg : PM.Cfg) (w0 : World) (hcfg : CfgOK w0) (hA0 : AmmoC w0) (hN0 : NoAmmoC w0)
+    (t0 : Tape) (ops : List PM.Op) (hops : ∀ op ∈ ops, PM.OpOK cfg w0 op) :
+    let s := (PM.runOps cfg { ex := { w := w0, tape := t0 } } ops).2
+    s.ex.rewards.isSome = true → PM.WInvFloat s.ex.w = true := by
+  intro s
+  exact PM.runOps_floatS hcfg hA0 hN0 ops _ hops rfl (fun h => by cases h)
+
+/-- … and so does every state the managers can reach through `PM.toSimIface` -/
+theorem pacman_simIface_WInvFloat (cfg : PM.Cfg) (w0 : World) (n : Nat) (hcfg : CfgOK w0) (hA0 : AmmoC w0)
+    (hN0 : NoAmmoC w0) (hR : PM.ResetOK cfg w0 cfg.comps) {s : PM.St} (h : PM.Reach cfg w0 n s) : PM.FloatS s := by
+  have hW : ∀ s : PM.St, s.withTape s.ex.tape = s := fun s => rfl
+  induction h with
+  | init t => exact fun h => by cases h
+  | @reset s hr ih =>
+    have hG := pacman_simIface_reachable cfg w0 n hcfg hA0 hN0 hR hr
+    have hg := PM.runOp_floatS hcfg hA0 hN0 s (.reset cfg.comps s.ex.tape) hR hG ih
+    simp only [PM.runOp, hW] at hg
+    simp only [PM.toSimIface]
+    cases hr : PM.reset cfg cfg.comps s with
+    | error e => exact ih
+    | ok s' => simpa [hr] using hg
+  | @step s acts hr ih =>
+    have hG := pacman_simIface_reachable cfg w0 n hcfg hA0 hN0 hR hr
+    have hg := PM.runOp_floatS (cfg := cfg) hcfg hA0 hN0 s (.step acts s.ex.tape) trivial hG ih
+    simpa only [PM.runOp, hW, PM.toSimIface] using hg
+  | @obs s a hr ih =>
+    have hG := pacman_simIface_reachable cfg w0 n hcfg hA0 hN0 hR hr
+    have hg := PM.runOp_floatS (cfg := cfg) hcfg hA0 hN0 s (.obs a s.ex.tape) trivial hG ih
+    simp only [PM.runOp, hW] at hg
+    simp only [PM.toSimIface]
+    split <;> simp_all
+  | @reward s a hr ih =>
+    have hG := pacman_simIface_reachable cfg w0 n hcfg hA0 hN0 hR hr
+    have hg := PM.runOp_floatS (cfg := cfg) hcfg hA0 hN0 s (.rew a) trivial hG ih
+    simp only [PM.runOp] at hg
+    simp only [PM.toSimIface]
+    split <;> simp_all
+
+
 /-! ## Stated, not proved (judged at run time by `PM.specPM` on every call of the streams)
 
 ```
@@ -462,6 +584,30 @@ example :
       · trivial
       · trivial)
     (by decide +kernel)
+
+/-- `pacman_reachable_WInvFloat` is not vacuous: the history of the refused teleport (a raising step included) ends in a
+world that satisfies `WInvFloat` by the theorem — and NOT `WInv` -/
+example :
+    let w0 := exPMWorld [(1, [3]), (4, [3, 4]), (3, [1, 4])] 21 (9, 1) (9, 20)
+    let s := (PM.runOps (exPMCfg false) { ex := { w := w0 } }
+      [exPMReset, .step [(0, 1), (1, 0)] [], .step [(0, 0), (1, 0)] []]).2
+    PM.WInvFloat s.ex.w = true ∧ s.ex.w.WInv = false :=
+  ⟨pacman_reachable_WInvFloat (exPMCfg false) _ ((cfgOKb_iff _).mp (by decide +kernel))
+    (fun a _ h => by
+      have : a = 0 ∨ a = 1 ∨ a = 2 ∨ 3 ≤ a := by omega
+      rcases this with rfl | rfl | rfl | h3
+      · cases h
+      · cases h
+      · cases h
+      · simp [World.cfgOf, exPMWorld, List.getD_eq_getElem?_getD, h3] at h)
+    ((noAmmoCb_iff _).mp (by decide +kernel)) [] _
+    (fun op hop => by
+      simp only [List.mem_cons, List.mem_nil_iff, or_false] at hop
+      rcases hop with rfl | rfl | rfl
+      · exact ⟨Ex.resetOK_of_b (by decide +kernel), by simp [exPMReset]⟩
+      · trivial
+      · trivial)
+    (by decide +kernel), by decide +kernel⟩
 
 /-- the manager theorems are inhabited: an all-step run over the 21-column world -/
 example : specC01 .allStep 3 (exPMCfg false).isLearning false
